@@ -17,5 +17,5 @@ for f in sorted(os.listdir(d)):
     body = header + 'Definition c := snd ' + case + '.\nEval vm_compute in (' + expr + ').\n'
     open(ROOT + '/_work/dbg.v', 'w').write(body)
     out = subprocess.run('coqc -noglob -Q %s/coq/theories IweV %s/_work/dbg.v' % (ROOT, ROOT), shell=True, capture_output=True, text=True)
-    print(out.stdout[-6000:], out.stderr[-2000:])
+    print(out.stdout[-int(os.environ.get("DBG_TAIL","6000")):], out.stderr[-2000:])
     break
